@@ -705,7 +705,7 @@ batch(uint64_t first, uint64_t count, const char * prefix, int maxreport)
 
 				for (k = 0; k < nk; k++) {
 					/* all k when few; seeded-independent stride sample when many */
-					if (nk > 24 && k >= 8 && (k % ((nk + 15) / 16)) != 0 && k != nk - 1)
+					if (nk > 64 && k >= 48 && (k % ((nk + 15) / 16)) != 0 && k != nk - 1)
 						continue;
 					for (p = 0; p < 2; p++) {
 						sim_af_step = j;
